@@ -283,6 +283,7 @@ def one_run(dyn, ctl, leaves, proto, gen, case, j, run):
                 'results': repr(sorted((rc or {}).get(epyc.Experiment.RESULTS, {}).items(), key=repr)) if rc else None,
                 'report_params': sorted((rc or {}).get(epyc.Experiment.PARAMETERS, {}).keys()) if rc else None,
                 'proto': graph_value(proto)})
+    obs['_rc'] = rc
     return obs
 
 
@@ -388,8 +389,15 @@ class H(Harness):
                 d2, c2, l2, p2, t2, g2 = build_experiment(case, None)
                 f = one_run(d2, c2, l2, p2, g2, case, j, run)
                 f.pop('proto')
+                f.pop('_rc', None)
                 o['fresh'] = {k: f[k] for k in ('started', 'taps', 'results', 'time', 'events', 'status', 'exception', 'raised', 'fired', 'calls', 'left_queue', 'left_finder')}
             runs.append(o)
+        # what an earlier run returned stays what it was, whatever later runs on the same objects do
+        import epyc as _epyc
+        for o in runs:
+            rc = o.pop('_rc', None)
+            o['results_later'] = repr(sorted((rc or {}).get(_epyc.Experiment.RESULTS, {}).items(), key=repr)) if rc else None
+            (o.get('fresh') or {}).pop('_rc', None)
         return {'runs': runs, 'limit': case['limit']}
 
     # ------------------------------------------------------------- D
@@ -402,6 +410,8 @@ class H(Harness):
                 continue
             if not o['proto_same']:
                 v.append({'signature': 'prototype-modified', 'detail': where})
+            if o.get('results') is not None and o.get('results_later') != o['results']:
+                v.append({'signature': 'results-of-an-earlier-run-changed-by-a-later-run', 'detail': dict(where, returned=o['results'][:300], later=(o.get('results_later') or '')[:300])})
             if limit is not None and o['generated'] > limit:
                 v.append({'signature': 'generator-exceeded-its-limit', 'detail': dict(where, generated=o['generated'], limit=limit)})
             st = o['started']
